@@ -830,3 +830,97 @@ func init() {
 		Rule: "81 scope maps x 2 functions; every case non-trivial",
 		Run:  c01EcalScopes})
 }
+
+// (8) rule sets that change over the life of a processor: events, then Finish,
+// more rules, Start, the same events again. What fires for an event depends on
+// the rules registered at that moment only - whatever the processor remembered
+// about earlier events (its triggering cache) must not leak across AddRule.
+func c01Restart(c *Ctx) {
+	patterns := []string{"a.b.c", "a.*.c", "*.b.c", "a.b.*", "*.*.c", "a.*", "*", "a.*.*", "x.b.c"}
+	kinds := [][]string{{"a", "b", "c"}, {"a", "x", "c"}, {"a", "b"}, {"x", "b", "c"}, {"a"}}
+	for i1 := -1; i1 < len(patterns); i1++ { // -1: no rule at first
+		for i2 := range patterns {
+			if i1 == i2 {
+				continue
+			}
+			if !c.Mine() {
+				continue
+			}
+			for _, reset := range []bool{false} {
+				_ = reset
+				input := fmt.Sprintf("rules first %v, after restart + %q", map[bool]string{true: "none", false: ""}[i1 < 0]+func() string {
+					if i1 >= 0 {
+						return patterns[i1]
+					}
+					return ""
+				}(), patterns[i2])
+				c.Begin(input)
+				proc := engine.NewProcessor(1)
+				var fired []string
+				cur := ""
+				var rules []*engine.Rule
+				add := func(name, pat string) {
+					r := &engine.Rule{Name: name, KindMatch: []string{pat}, ScopeMatch: []string{},
+						Action: func(p engine.Processor, m engine.Monitor, e *engine.Event, tid uint64) error {
+							fired = append(fired, cur+":"+name)
+							return nil
+						}}
+					rules = append(rules, r)
+					proc.AddRule(r)
+				}
+				if i1 >= 0 {
+					add("r1", patterns[i1])
+				}
+				var want []string
+				runEvents := func(phase string) bool {
+					for ki, kind := range kinds {
+						cur = fmt.Sprintf("%s-e%d", phase, ki)
+						for _, r := range rules {
+							if refRuleMatches(r, kind, nil) {
+								want = append(want, cur+":"+r.Name)
+							}
+						}
+						var pk, pm string
+						pk, pm = Guard(func() {
+							proc.AddEventAndWait(engine.NewEvent(cur, kind, nil), nil)
+						})
+						if pk != "" {
+							c.Viol("restart-"+pk, input+": "+pm, input)
+							return false
+						}
+					}
+					return true
+				}
+				proc.Start()
+				ok := runEvents("p1")
+				proc.Finish()
+				if ok {
+					add("r2", patterns[i2])
+					proc.Start()
+					ok = runEvents("p2")
+					proc.Finish()
+				}
+				if !ok {
+					continue
+				}
+				c.Nontrivial()
+				sort.Strings(want)
+				got := append([]string{}, fired...)
+				sort.Strings(got)
+				if fmt.Sprint(got) != fmt.Sprint(want) {
+					c.Viol("fired-set-differs-after-rule-change", fmt.Sprintf("%s: events of kinds %v before and after; fired %v, expected %v", input, kinds, got, want), input)
+					continue
+				}
+				c.Outcome("fired-set-equal")
+			}
+		}
+	}
+	c.Sample("no rule, event a.x.c (not triggering); Finish; AddRule a.*.c; Start; event a.x.c fires the rule")
+}
+
+func init() {
+	register(&Part{Prop: "C01", Name: "rules-added-after-restart", Quick: 2, Thor: 2,
+		Desc: "a processor with no rule or one rule (kind pattern from 9 patterns with wildcards in every position) processes events of 5 kinds, is finished, gets a second rule (another of the 9 patterns), is started again and processes the same kinds: the rules fired per event must be exactly the rules registered at that moment that match (90 rule histories x 10 events)",
+		Rule: "ordered pairs of patterns incl. 'none first'; every case non-trivial",
+		Run:  c01Restart})
+}
